@@ -362,7 +362,7 @@ inline auto sgn(int v) -> int { return v < 0 ? -1 : (v > 0 ? 1 : 0); }
     X(ALIAS_ASSIGN_PTR_N, "s.assign(s.data()+k,n)") X(ALIAS_ASSIGN_CSTR, "s.assign(s.c_str()+k)") X(ALIAS_OPEQ_CSTR, "s = s.c_str()+k") X(ALIAS_ASSIGN_MISC, "assign/operator= from a range or view of s itself") \
     X(ALIAS_APPEND, "append/+=/push_back with an argument inside s itself") X(ALIAS_INSERT, "insert with an argument inside s itself") X(ALIAS_REPLACE, "replace with an argument inside s itself")        \
     X(ALIAS_QUERY, "find*/compare/starts_with... with an argument inside s itself") X(OTHERCAP, "operations with a string of another capacity") X(FREE_ERASE_TYPED, "erase/erase_if(str, value of another type)") \
-    X(APPEND_INPUT_IT, "append(first,last) with single-pass input iterators")
+    X(APPEND_INPUT_IT, "append(first,last) with single-pass input iterators") X(FREE_ERASE_IF_STATEFUL, "erase_if(str, stateful predicate)")
 
 enum Code : std::uint32_t {
 #define X(id, name) id,
